@@ -639,10 +639,22 @@ func (p *Process) handleInput(pipe io.WriteCloser) {
 
 func (p *Process) handleOutput(pipe io.ReadCloser, output string, handler func(message string), done chan struct{}) {
 	reader := bufio.NewReader(pipe)
+	handleLine := func(line string) {
+		if p.procConf.ReadyLogLine != "" && p.procState.Health == types.ProcessHealthUnknown && strings.Contains(line, p.procConf.ReadyLogLine) {
+			p.procState.Health = types.ProcessHealthReady
+			p.readyLogCancelFn(nil)
+		}
+		p.checkElevatedProcOutput(line)
+		handler(strings.TrimSuffix(line, "\n"))
+	}
 	for {
 		line, err := reader.ReadString('\n')
 		if err != nil {
 			if err == io.EOF {
+				// the last line of the output may lack the trailing newline
+				if line != "" {
+					handleLine(line)
+				}
 				break
 			}
 			var pathErr *os.PathError
@@ -655,12 +667,7 @@ func (p *Process) handleOutput(pipe io.ReadCloser, output string, handler func(m
 				Msgf("error reading from %s", output)
 			break
 		}
-		if p.procConf.ReadyLogLine != "" && p.procState.Health == types.ProcessHealthUnknown && strings.Contains(line, p.procConf.ReadyLogLine) {
-			p.procState.Health = types.ProcessHealthReady
-			p.readyLogCancelFn(nil)
-		}
-		p.checkElevatedProcOutput(line)
-		handler(strings.TrimSuffix(line, "\n"))
+		handleLine(line)
 	}
 	close(done)
 }
